@@ -5,6 +5,7 @@ import (
 	"math/big"
 
 	ethcmn "github.com/ethereum/go-ethereum/common"
+	ethcrypto "github.com/ethereum/go-ethereum/crypto"
 	"pgregory.net/rapid"
 
 	"github.com/Oneledger/protocol/data/keys"
@@ -164,16 +165,35 @@ func (g *gen) redeem() txgen.Tx {
 	e := g.ethUser("e")
 	var tx txgen.Tx
 	var raw []byte
+	// a receiving address whose tail is the redeem method's selector: the selector then occurs in the raw
+	// transaction before the call data does (the redeem parsers look for it in the raw bytes)
+	selTo := func(base ethcmn.Address, sel []byte) *ethcmn.Address {
+		to := base
+		copy(to[16:], sel)
+		return &to
+	}
+	odd := g.pct(6, "sel-in-to")
 	if cur == "ETH" {
-		raw = txgen.EthRedeemRaw(e, g.nextNonce(e), &sim.LockRedeemContract, a)
+		to := &sim.LockRedeemContract
+		if odd {
+			to = selTo(sim.LockRedeemContract, ethcmn.FromHex("0xdb006a75"))
+		}
+		raw = txgen.EthRedeemRaw(e, g.nextNonce(e), to, a)
 		tx = txgen.EthRedeem(u, u.Addr, e.Addr, raw, g.w.Fee, g.w.Memo())
 		g.remember("ETH_REDEEM", raw, ui, tx)
 	} else {
-		raw = txgen.ERC20RedeemRaw(e, g.nextNonce(e), &sim.ERCLockContract, sim.TestTokenContract, a)
+		to := &sim.ERCLockContract
+		if odd {
+			to = selTo(sim.ERCLockContract, ethcrypto.Keccak256([]byte("redeem(uint256,address)"))[:4])
+		}
+		raw = txgen.ERC20RedeemRaw(e, g.nextNonce(e), to, sim.TestTokenContract, a)
 		tx = txgen.ERC20Redeem(u, u.Addr, e.Addr, raw, g.w.Fee, g.w.Memo())
 		g.remember("ERC20_REDEEM", raw, ui, tx)
 	}
 	tx.Tags = []string{tag}
+	if odd {
+		tx.Tags = append(tx.Tags, "eth-selector-in-to-address")
+	}
 	return tx
 }
 
